@@ -690,3 +690,23 @@ Proof.
   apply (o_over_run vr cs s1 (e_now (oc_env c)) Hb1); [ | exact Ht ].
   unfold o_over in *. rewrite Hm. replace (o_end s1) with (o_end s) by (unfold o_cfg in Hc; congruence). exact Ho.
 Qed.
+
+(* ---------- the whitelist's answers against what its admin intended (open edition) ---------- *)
+Theorem o_faithful_whitelist_within_intended vr (ient icap : N) s e fp wv stage proof alloc s' ms :
+  ostep vr s e fp wv (EMint stage proof alloc) = Ok (s', ms) ->
+  o_wl_phase s wv = true ->
+  (forall v ent, wv = Some v -> o_entitlement vr v alloc = Some ent -> ent <= ient) ->
+  (forall v sl, wv = Some v -> active_slot v = Some sl -> is_stage sl = true ->
+     exists lim, wv_stage_limit v = Some (Some lim) /\ lim <= icap) ->
+  exists v sl, wv = Some v /\ active_slot v = Some sl /\
+    get (o_slot_map s' sl) (e_sender e) <= ient /\
+    (is_stage sl = true -> o_stage_total s' sl <= icap).
+Proof.
+  intros H Hph Hent Hcap. apply o_whitelist_mint_step in H; [ | exact Hph ].
+  destruct H as (v & sl & ent & Hwv & _ & _ & _ & Hsl & He & Hlt & _ & Hroom & Hinc & _ & _ & Htot & _).
+  exists v, sl. split; [ exact Hwv | ]. split; [ exact Hsl | ].
+  specialize (Hent v ent Hwv He). split; [ rewrite Hinc; lia | ].
+  intros Hst. destruct (Hcap v sl Hwv Hsl Hst) as (lim & Hl & Hle).
+  destruct (Hroom Hst) as (ol & Hol & Hr). rewrite Hl in Hol. inv Hol.
+  specialize (Hr lim eq_refl). rewrite (Htot Hst). lia.
+Qed.
